@@ -100,8 +100,10 @@ def parse_terminal(text, tables):
 def parse_libtest(text, tables):
     facts = []
     info = {"wellformed": True, "unpaired": 0, "n_ok": 0, "n_failed": 0, "n_ignored": 0,
-            "suite_started": 0, "suite_result": 0, "suite": {}, "retried_failed_lines": 0}
+            "suite_started": 0, "suite_result": 0, "suite": {}, "retried_failed_lines": 0,
+            "dup_started": 0}
     open_names = {}
+    seen_started = set()
     for line in text.splitlines():
         if not line.strip():
             continue
@@ -122,6 +124,10 @@ def parse_libtest(text, tables):
         ev = j.get("event")
         if ev == "started":
             open_names[name] = open_names.get(name, 0) + 1
+            # "exactly one result line with the same name": names of started lines are unique
+            if name in seen_started:
+                info["dup_started"] += 1
+            seen_started.add(name)
             continue
         if open_names.get(name, 0) > 0:
             open_names[name] -= 1
